@@ -59,5 +59,8 @@ void mutate(vrng *r, vbuf *b, char *desc, size_t descsz);
 /// Recompute the CRC32s of a .xz file's fixed-position fields (Stream
 /// Header, Footer) so that mutations reach beyond the first integrity test.
 void xz_fix_header_crcs(vbuf *b);
+/// Make the start offset of one BCJ filter in a Block Header of the first Stream misaligned (header CRC fixed): the Block
+/// is well-formed but its decoder refuses to initialise. Returns the Block index or -1 if there is no candidate.
+int xz_misalign_bcj_offset(vbuf *d, vrng *r);
 
 #endif
